@@ -3,6 +3,7 @@ package main
 import (
 	"encoding/json"
 	"fmt"
+	"os"
 
 	"mltwist/verifh/emu"
 	"mltwist/verifh/eng"
@@ -18,6 +19,10 @@ type c03Case struct {
 	Init  emu.Init `json:"init"`
 	Steps int      `json:"steps"`
 	Entry uint64   `json:"entry"`
+	// PTY: the program is emulated by the real binary under a pseudo-terminal (c03pty.go);
+	// Reenter: the emulation is left and started again before the state is compared
+	PTY     bool `json:"pty,omitempty"`
+	Reenter bool `json:"reenter,omitempty"`
 }
 
 const (
@@ -61,6 +66,9 @@ func c03Layout(words []uint32) []prog.Seg {
 
 // c03Run executes the case; monitor is called after each step (C04).
 func c03Run(c c03Case, monitor func(m *emu.Machine) *eng.Fail) (f *eng.Fail, steps int, skipped string) {
+	if c.PTY {
+		return c03PTY(c), c.Steps, ""
+	}
 	segs := c03Layout(c.Words)
 	for _, w := range c.Words {
 		c.Text = append(c.Text, prog.Dis(w))
@@ -135,7 +143,7 @@ func c03Enumerate(r *eng.Run, f func(c c03Case)) {
 func init() {
 	checks["C03"] = eng.Check{
 		Hist: true,
-		Rule: "every RV64IMA program of <=3 (thorough 4) instructions over a 36-word alphabet built to collide (three writers of x1, negative immediates, mul/div, sd/sw/sh/sb to overlapping offsets of one base, loads inside one store / across two stores / across a store and never-written memory / inside the image / across the image start, addw (32-bit register read) followed by a 64-bit reader, amoadd.w, lr.w, sc.w, sc.w/amoswap.w using ONE register as address and data, sd/sw/amoswap.w storing x0, add/ld/sd/jalr/amoadd.w whose destination is their own source or base register, beq forward, jal backward, jalr to a register, pseudo-jump jal +4, csrrw) followed by 4 nops, through the real pipeline (elf block store -> parser -> deps.NewCode -> emulator with Overlay(Bytes(image), Sparse)); run for <=8 steps from 4 initial states (small values; full 64-bit values with an indirect jump to a mid-instruction address; pre-loaded registers/memory with a jump outside the code; data area above 2^32) supplied by the state provider. After every step pc, every register the emulator knows, every written or supplied memory byte and the step report (register/memory reads and writes with values, as sets) are compared with the reference interpreter; Step must fail exactly when pc is not an instruction start. Plus 8 three-instruction programs whose middle instruction stores to / loads from the last bytes of the address space (ending exactly at 2^64, or wrapping around it). states = program x initial state; transitions = steps executed. Non-trivial = run of >=3 steps.",
+		Rule: "every RV64IMA program of <=3 (thorough 4) instructions over a 36-word alphabet built to collide (three writers of x1, negative immediates, mul/div, sd/sw/sh/sb to overlapping offsets of one base, loads inside one store / across two stores / across a store and never-written memory / inside the image / across the image start, addw (32-bit register read) followed by a 64-bit reader, amoadd.w, lr.w, sc.w, sc.w/amoswap.w using ONE register as address and data, sd/sw/amoswap.w storing x0, add/ld/sd/jalr/amoadd.w whose destination is their own source or base register, beq forward, jal backward, jalr to a register, pseudo-jump jal +4, csrrw) followed by 4 nops, through the real pipeline (elf block store -> parser -> deps.NewCode -> emulator with Overlay(Bytes(image), Sparse)); run for <=8 steps from 4 initial states (small values; full 64-bit values with an indirect jump to a mid-instruction address; pre-loaded registers/memory with a jump outside the code; data area above 2^32) supplied by the state provider. After every step pc, every register the emulator knows, every written or supplied memory byte and the step report (register/memory reads and writes with values, as sets) are compared with the reference interpreter; Step must fail exactly when pc is not an instruction start. Plus 8 three-instruction programs whose middle instruction stores to / loads from the last bytes of the address space (ending exactly at 2^64, or wrapping around it). PROC conformance: 8 programs (store/load back, image read and store over the image, supplied memory partially overwritten, x0 stores, M and A instructions) emulated by the REAL BINARY under a pseudo-terminal (entry, e, one step per instruction, every state prompt answered from the initial state; also with the emulation left and started again): the register view and the memory view read off the screen must show the reference machine's registers and memory. states = program x initial state; transitions = steps executed. Non-trivial = run of >=3 steps.",
 		Assumptions: []string{
 			"programs storing into their own image are skipped (property excludes self-modification)",
 			"the step report is compared as sets; a register read at several widths may be reported at any of them",
@@ -178,6 +186,25 @@ func init() {
 						r.Outcome(f.Sig)
 					}
 				}
+			}
+			// PROC conformance: the real binary (cmd/mltwist wiring, UI, state prompts) under a pseudo-terminal
+			pc := c03PTYCases(r.Quick())
+			r.ItemLimit = -1 // every process run has its own 120 s limit
+			r.Par(len(pc), func(i int) {
+				f := c03PTY(pc[i])
+				r.Eval(1)
+				r.State(1)
+				r.Trace(1)
+				r.Trans(pc[i].Steps)
+				if f != nil {
+					r.Report(f)
+					r.Outcome(f.Sig)
+				}
+			})
+			r.ItemLimit = 0
+			if c03BinDir != "" {
+				os.RemoveAll(c03BinDir)
+				c03Bin, c03BinDir = "", ""
 			}
 			r.Sample(c03Case{Words: []uint32{prog.Sw(2, 5, 4), prog.Lw(8, 5, 2), prog.Beq(1, 2, 8)}, Text: []string{"sw x2,4(x5)", "lw x8,2(x5)", "beq x1,x2,+8"}, Init: c03Inits[0], Steps: 8, Entry: c03Base})
 		},
